@@ -77,6 +77,10 @@ type (
 		tg     *threadgroup.ThreadGroup
 		log    *zap.Logger
 
+		// syncMu serialises Sync: a Sync must not return while another one
+		// is still fsyncing a volume whose dirty flag it has already cleared
+		syncMu sync.Mutex
+
 		mu      sync.Mutex // protects the following fields
 		volumes map[int64]*volume
 		// changedVolumes tracks volumes that need to be fsynced
@@ -886,6 +890,9 @@ func (vm *VolumeManager) Sync() error {
 	}
 	defer done()
 
+	vm.syncMu.Lock()
+	defer vm.syncMu.Unlock()
+
 	vm.mu.Lock()
 	var toSync []int64
 	for id := range vm.changedVolumes {
@@ -894,18 +901,21 @@ func (vm *VolumeManager) Sync() error {
 	vm.mu.Unlock()
 
 	for _, id := range toSync {
+		// clear the flag before the fsync: a write that lands after the
+		// fsync sets it again and is picked up by the next Sync
 		vm.mu.Lock()
 		vol, ok := vm.volumes[id]
+		delete(vm.changedVolumes, id)
 		vm.mu.Unlock()
 		if !ok {
 			continue
 		}
 		if err := vol.Sync(); err != nil {
+			vm.mu.Lock()
+			vm.changedVolumes[id] = true
+			vm.mu.Unlock()
 			return fmt.Errorf("failed to sync volume %v: %w", id, err)
 		}
-		vm.mu.Lock()
-		delete(vm.changedVolumes, id)
-		vm.mu.Unlock()
 	}
 	return nil
 }
